@@ -206,7 +206,8 @@ Section Model.
     end.
 
   (* ---------- CanvasCache.cleanup (weakref callback) ---------- *)
-  Definition cleanup (c : cache) (r : cid) : cache :=
+  (* everything up to and including `cls._deps.pop(widget, [])` *)
+  Definition cleanup_entry (c : cache) (r : cid) : cache :=
     match alookup (refs c) r with
     | None => c                    (* del cls._refs[ref] raises KeyError, which a weakref callback cannot propagate *)
     | Some (w, k) =>
@@ -216,10 +217,29 @@ Section Model.
       | Some [] => Cache (widgets c) refs' (deps c)
       | Some sizes =>
         match aremove sizes k with                                        (* del sizes[wcls, size, focus] *)
-        | [] => Cache (aremove (widgets c) w) refs' (aremove (deps c) w)  (* del _widgets[widget]; del _deps[widget] *)
+        | [] => Cache (aremove (widgets c) w) refs' (aremove (deps c) w)  (* del _widgets[widget]; _deps.pop(widget, []) *)
         | sizes' => Cache (aset (widgets c) w sizes') refs' (deps c)
         end
       end
+    end.
+  (* the dependants list popped by the line above: non-empty only when the widget's last canvas went away *)
+  Definition cleanup_popped (c : cache) (r : cid) : list widget :=
+    match alookup (refs c) r with
+    | None => []
+    | Some (w, k) =>
+      match alookup (widgets c) w with
+      | None => []
+      | Some [] => []
+      | Some sizes => match aremove sizes k with [] => deps_of c w | _ => [] end
+      end
+    end.
+  Definition invalidate_all (n : nat) (ds : list widget) (c : cache) : option cache :=
+    fold_left (fun acc d => match acc with None => None | Some c' => invalidate n c' d end) ds (Some c).
+  Definition cleanup (c : cache) (r : cid) : cache :=
+    let c1 := cleanup_entry c r in
+    match invalidate_all (S (length (deps c1))) (cleanup_popped c r) c1 with   (* for w in popped: cls.invalidate(w) *)
+    | Some c2 => c2
+    | None => c1                                                          (* never: Proofs, invalidate_all_total *)
     end.
 
   (* ---------- histories ---------- *)
